@@ -5,7 +5,7 @@ YAML document order, the std::map order and the model's association-list order c
 """
 import random
 
-GEN_VERSION = 5
+GEN_VERSION = 6
 
 # ---------------------------------------------------------------- codec
 def hx(s):
@@ -67,6 +67,30 @@ def untok(s):
     return v
 
 
+def _tree_len(toks, i):
+    """number of tokens of the tree starting at toks[i]"""
+    t = toks[i]
+    if t == "n":
+        return 1
+    if t == "s":
+        return 2
+    n, j = int(toks[i + 1]), i + 2
+    for _ in range(n):
+        if t == "m":
+            j += 1
+        j += _tree_len(toks, j)
+    return j - i
+
+
+def norm_id(name):
+    """ResourceResolver::ToResourceId for the config type: the `.yaml` extension is not part of the id"""
+    return name[:-5] if name.endswith(".yaml") else name
+
+
+def custom_of(name):
+    return (name[:-7] if name.endswith(".schema") else name) + ".custom"
+
+
 def emit_proj(t):
     """what EmitYaml + reload keeps: null map values and null list elements vanish"""
     if isinstance(t, list):
@@ -90,7 +114,10 @@ def case_text(case):
     for n in sorted(case["docs"], key=bkey):
         out.append("doc %s %s" % (hx(n), tok(case["docs"][n])))
     for op in case["ops"]:
-        out.append("compile " + hx(op[1]) if op[0] == "compile" else "fresh")
+        if op[0] == "customize":
+            out.append(" ".join(["customize", hx(op[1]), str(len(op[2]))] + [hx(k) + " " + tok(v) for k, v in op[2]]))
+        else:
+            out.append("compile " + hx(op[1]) if op[0] == "compile" else "fresh")
     out.append("end")
     return "\n".join(out) + "\n"
 
@@ -107,6 +134,16 @@ def parse_case_file(text):
             cur["ops"].append(("compile", unhx(p[1])))
         elif p[0] == "fresh" and cur is not None:
             cur["ops"].append(("fresh",))
+        elif p[0] == "customize" and cur is not None:
+            q = line.split(" ")
+            toks, kvs = q[3:], []
+            for _ in range(int(q[2])):
+                key = unhx(toks[0])
+                # one tree: consume tokens until a complete tree is read
+                n = _tree_len(toks, 1)
+                kvs.append([key, untok(" ".join(toks[1:1 + n]))])
+                toks = toks[1 + n:]
+            cur["ops"].append(("customize", unhx(q[1]), kvs))
         elif p[0] == "end" and cur is not None:
             cases.append(cur)
             cur = None
